@@ -116,7 +116,7 @@ class Run:
              'gv': gv, 'cfail': h.get('cfail', 0), 'mfail': h.get('mfail', 0),
              'clk': it.clock.time, 'pre': self.state(), 'some': False, 'rtime': 0, 'steps': [],
              'exc': '', 'eobj': 0, 'eidx': 0, 'log': [], 'chk': 1,
-             'ign': self.opt['ignore'], 'stale': 0, 'hasl2': self.listener2 is not None, 'l2': [], 'mt': [],
+             'ign': self.opt['ignore'], 'stale': 0, 'opq': False, 'hasl2': self.listener2 is not None, 'l2': [], 'mt': [],
              'ref': dict(NOREF)}
         if self.broken:
             o['exc'] = self.broken
